@@ -49,7 +49,7 @@ macro_rules! sources {
     ($rng:expr, $len:expr, $($s:literal),*) => {{
         $( if $len <= $s {
             let cid: CidGeneric<$s> = cid_len(&mut $rng, $len);
-            targets!($s, &cid, 0, 1, 16, 20, 31, 32, 33, 48, 63, 64, 65, 128);
+            targets!($s, &cid, 0, 1, 16, 20, 31, 32, 33, 48, 63, 64, 65, 128, 255, 256, 257, 300, 512, 1024);
         } )*
     }};
 }
